@@ -13,6 +13,7 @@ pub mod iox;
 pub mod containers;
 pub mod malformed;
 pub mod schemaread;
+pub mod abi;
 
 #[macro_use]
 mod reg;
